@@ -34,7 +34,7 @@ def get_adapter(prop):
 BUDGET = {
     # property: tier: (runs, soft deadline seconds)
     'C15': {'quick': (24000, 50), 'thorough': (1500000, 780)},
-    'C20': {'quick': (3000, 80), 'thorough': (400000, 1020)},
+    'C20': {'quick': (3000, 55), 'thorough': (400000, 1020)},
 }
 
 
